@@ -169,55 +169,6 @@ def _r6_occurrences(ctx, pkg, count_name):
             ctx.ok("R6", key, (SPECIES, f.line), "called once per match of the formula scan (no de-duplicating container in between)")
 
 
-def _scan(tree, items, env, guards=()):
-    """The items of one template scope in order, with the `{% set %}` bindings in force at each item (names substituted, value
-    macros inlined) and the enclosing `{% if %}` tests; descends into if-arms (same scope), not into loops."""
-    for it in items:
-        if it[0] == "set" and it[1][0] == "name":
-            env[it[1][1]] = J.subst(J.inline_macros(tree, it[-1], it[2]), env)
-        elif it[0] == "if":
-            yield from _scan(tree, it[2], env, guards + (("if+", it[1], dict(env)),))
-            yield from _scan(tree, it[3], env, guards + (("if-", it[1], dict(env)),))
-        else:
-            yield it, env, guards
-
-
-def _expr(tree, it, e, env):
-    return J.subst(J.inline_macros(tree, it[6] if it[0] == "for" else it[-1], e), env)
-
-
-def _ws(pieces):
-    """pieces with whitespace runs of the literals collapsed and the ends stripped"""
-    out = []
-    for p in pieces:
-        if p[0] == "lit":
-            t = re.sub(r"\s+", " ", p[1])
-            if out and out[-1][0] == "lit":
-                out[-1] = ("lit", re.sub(r"\s+", " ", out[-1][1] + t))
-            else:
-                out.append(("lit", t))
-        else:
-            out.append(p)
-    if out and out[0][0] == "lit":
-        out[0] = ("lit", out[0][1].lstrip())
-    if out and out[-1][0] == "lit":
-        out[-1] = ("lit", out[-1][1].rstrip())
-    return [p for p in out if p != ("lit", "")]
-
-
-def _printed(tree, items, env):
-    """what a run of text / output items prints, as pieces (sets followed); a control item ends the run with ("ctl", item)"""
-    out = []
-    for it, env_, guards in _scan(tree, items, env):
-        if it[0] == "text":
-            out.append(("lit", it[1]))
-        elif it[0] == "out":
-            out.extend(J.str_pieces(_expr(tree, it, it[1], env_)))
-        else:
-            out.append(("ctl", it, dict(env_), guards))
-    return out
-
-
 def _mentions(e, name):
     return e == name or (isinstance(e, tuple) and any(_mentions(x, name) for x in e if isinstance(x, tuple)))
 
@@ -250,7 +201,7 @@ def _r1(ctx):
         if it[0] == "set" and it[1][0] == "name":
             env0[it[1][1]] = J.subst(J.inline_macros(tree, it[-1], it[2]), env0)
     # what the branch prints before the species loop: `if (elemidx == IDX_ELEM_<..>) {`
-    pieces = _printed(tree, o[3], dict(env0))
+    pieces = J.printed(tree, o[3], dict(env0))
     guard_expr = None
     inner = []
     macro_uses = 0
@@ -275,7 +226,7 @@ def _r1(ctx):
     foundm = None
     if len(mloops) == 1:
         ml = mloops[0]
-        got = _ws(_printed(tree, ml[3], {}))
+        got = J.squeeze(J.printed(tree, ml[3], {}))
         want = [("lit", "#define IDX_ELEM_"), ("val", FIRST_KEY(ml[1])), ("lit", " "), ("val", ("attr", ("name", "loop"), "index0"))]
         okm = got == want and ml[7] is None and ml[2] == ("attr", ("name", "network"), "elements")
         foundm = " ".join(p[1] if p[0] == "lit" else "{{ " + J.show(p[-1]) + " }}" if p[0] != "ctl" else "{% .. %}" for p in got)
@@ -286,7 +237,7 @@ def _r1(ctx):
         return
     _, it, env1, _g = inner[-1]
     # the loop is normalised to: one species variable ranging over a base sequence, plus names computed from that element
-    itx = _expr(tree, it, it[2], env1)
+    itx = J.expr_at(tree, it, it[2], env1)
     env2 = dict(env1)
     svar = None
     if itx[0] == "call" and itx[1] == ("name", "zip") and not itx[3] and it[1][0] in ("tuple", "list") and len(it[1][1]) == len(itx[2]) \
@@ -315,9 +266,9 @@ def _r1(ctx):
               expected="for spec in network.species (unfiltered)", found=J.show(itx) + (f" if {J.show(it[7])}" if it[7] else ""))
     # the term: the one output of the loop body that mentions the species (other outputs are layout)
     terms = []
-    for x, env_, guards in _scan(tree, it[3], env2):
+    for x, env_, guards in J.scan(tree, it[3], env2):
         if x[0] == "out":
-            e = _expr(tree, x, x[1], env_)
+            e = J.expr_at(tree, x, x[1], env_)
             if _mentions(e, svar):
                 terms.append((x, e, guards))
         elif x[0] == "for":
